@@ -9,7 +9,9 @@ import (
 	"fmt"
 	"io"
 	"math/rand"
+	"runtime"
 	"strings"
+	"sync"
 	"testing"
 	"time"
 
@@ -427,4 +429,119 @@ func TestVerifC09(t *testing.T) {
 			r.OracleFail("fragmentation-pipe", line, got, "messages written one by one into an io.Pipe (zero-length ones included) must read back as the written chunks")
 		}
 	}
+	// 5b. a length prefix whose third byte still announces a continuation is over three bytes: it is rejected
+	// as too long at that point — also when the stream ends there, and without waiting for a fourth byte on
+	// a stream that stays open
+	for _, pre := range [][]byte{{0xc0, 0x80, 0x80}, {0xff, 0xff, 0xff}, {0x40 | 1, 0x80 | 2, 0x80 | 3}, {0xc0, 0x80, 0xff}} {
+		line := "c09 decode " + vh.Hex(pre)
+		_, _, st := readAllReal(bytes.NewReader(pre))
+		r.Case("toolong/truncated-after-third-byte", line, true)
+		if st != "tooLong" {
+			r.OracleFail("prefix-over-three-bytes-not-too-long", line, st, "a prefix of more than three bytes must be rejected as too long")
+		}
+		pr, pw := io.Pipe()
+		go pw.Write(pre) // the stream stays open
+		done := make(chan string, 1)
+		go func() { _, _, st := readAllReal(pr); done <- st }()
+		select {
+		case st = <-done:
+		case <-time.After(3 * time.Second):
+			st = "blocked"
+		}
+		pw.Close()
+		r.Case("toolong/open-stream", line+" (stream stays open)", true)
+		if st != "tooLong" {
+			r.OracleFail("prefix-over-three-bytes-not-too-long", line+" (stream stays open)", st,
+				"a prefix of more than three bytes must be rejected as too long without waiting for further bytes")
+		}
+	}
+
+	// 6. independent streams written at the same time (each client session pads and frames its own carrier):
+	// what is read back from a stream is exactly what was written to it, whatever the other writers do.  The
+	// underlying writers stall at random on entry to Write so that calls of different goroutines interleave.
+	for round := 0; round < r.N(30, 400); round++ {
+		const G = 4
+		type streamRes struct {
+			items []item
+			buf   bytes.Buffer
+			want  [][]byte
+			err   string
+		}
+		res := make([]*streamRes, G)
+		var wg sync.WaitGroup
+		start := make(chan struct{})
+		for g := 0; g < G; g++ {
+			sr := &streamRes{}
+			for len(sr.items) < 3 {
+				sr.items = append(sr.items, genItems(rng, 300)...)
+			}
+			if g%2 == 0 { // make sure padding and data alternate on some streams
+				sr.items = append([]item{{pad: 10 + g}, {isData: true, data: []byte{1, 2, 3, byte(g)}}, {pad: 1000 - g}}, sr.items...)
+			}
+			res[g] = sr
+			stall := rng.Int63()
+			wg.Add(1)
+			go func(sr *streamRes, stall int64) {
+				defer wg.Done()
+				defer func() {
+					if x := recover(); x != nil {
+						sr.err = fmt.Sprintf("panic: %v", x)
+					}
+				}()
+				w := &stallWriter{w: &sr.buf, rng: rand.New(rand.NewSource(stall))}
+				<-start
+				for _, it := range sr.items {
+					if it.isData {
+						if _, err := WriteData(w, it.data); err != nil {
+							sr.err = err.Error()
+							return
+						}
+						sr.want = append(sr.want, it.data)
+					} else if n, err := WritePadding(w, it.pad); err != nil || n != it.pad {
+						sr.err = fmt.Sprintf("WritePadding(%d) = %d, %v", it.pad, n, err)
+						return
+					}
+				}
+			}(sr, stall)
+		}
+		close(start)
+		wg.Wait()
+		for g, sr := range res {
+			var desc []string
+			for _, it := range sr.items {
+				if it.isData {
+					desc = append(desc, "d"+fmt.Sprint(len(it.data)))
+				} else {
+					desc = append(desc, "p"+fmt.Sprint(it.pad))
+				}
+			}
+			line := fmt.Sprintf("concurrent stream %d of %d: %s", g, G, strings.Join(desc, ","))
+			r.Case("concurrent-streams", line, true)
+			if sr.err != "" {
+				r.OracleFail("concurrent-stream-write-failed", line, sr.err, "writing to independent streams concurrently must not fail")
+				continue
+			}
+			got, chunks, st := readAllReal(bytes.NewReader(sr.buf.Bytes()))
+			if st != "eof" || !equalChunks(chunks, sr.want) {
+				r.OracleFail("concurrent-streams-interfere", line, got+" / stream bytes "+vh.Hex(sr.buf.Bytes()),
+					"chunks and paddings written to one stream must read back as exactly its data chunks, whatever is written to other streams at the same time")
+			}
+		}
+	}
+}
+
+// stallWriter delays at random on entry to Write, so that writers of different goroutines interleave.
+type stallWriter struct {
+	w   io.Writer
+	rng *rand.Rand
+}
+
+func (s *stallWriter) Write(p []byte) (int, error) {
+	switch s.rng.Intn(3) {
+	case 0:
+		runtime.Gosched()
+	case 1:
+		time.Sleep(time.Duration(s.rng.Intn(300)) * time.Microsecond)
+	}
+	return s.w.Write(p)
 }
